@@ -33,6 +33,8 @@ Record c10_run := {
   o_ijump : list (int * (float * float) * (float * float) * bool);
   (* observed: ZTDG[0..] and EINTE[1..] after every harvest call *)
   o_harv_arrays : list (list int * list int);
+  (* observed: g.DUNGSZEN as readConfig left it *)
+  o_dungszen : float;
 }.
 
 Definition fsame4 (a b : float * float * float * float) : bool :=
@@ -58,7 +60,8 @@ Definition pay_of (tab : list (frow float)) (fert : float) (s : rd (float * stri
 
 (* bitmask: 1 fertiliser dates, 2 fertiliser split per slot, 4 fertiliser firings, 8 tillage dates,
    16 tillage payload, 32 tillage firings, 64 irrigation arrays, 128 irrigation firings,
-   256 DSUMM/NH4Sum jumps, 512 REGEN/C1[0] jumps, 1024 date arrays after a harvest call *)
+   256 DSUMM/NH4Sum jumps, 512 REGEN/C1[0] jumps, 1024 date arrays after a harvest call,
+   2048 global fertilisation factor (config.go:114, DUNGSZEN = Fertilization / 100 of the CONFIGURED value) *)
 Definition c10_check (tab : list (frow float)) (r : c10_run) : nat :=
   let B := zi (r_B r) in let E := zi (r_E r) in let M := Z.to_nat (zi (r_M r)) in
   let fs := fert_read (PrimFloat.zero, EmptyString) B (PrimFloat.zero, EmptyString) (map mkline (r_fert r)) in
@@ -88,7 +91,8 @@ Definition c10_check (tab : list (frow float)) (r : c10_run) : nat :=
                         (negb usable || float_same (deposition (r_depos r) (r_dt r) (s_c10 s)) c1)) (o_ijump r) in
   let c11 := forallb (fun h => all2 Z.eqb (tab_of M (rd_date fs)) (map zi (fst h)) &&
                               all2 Z.eqb (tab_of M (rd_date ts)) (map zi (snd h))) (o_harv_arrays r) in
-  (b c1 1 + b c2 2 + b c3 4 + b c4 8 + b c5 16 + b c6 32 + b c7 64 + b c8 128 + b c9 256 + b c10 512 + b c11 1024)%nat.
+  let c12 := float_same (dungszen (r_fertilization r)) (o_dungszen r) in
+  (b c1 1 + b c2 2 + b c3 4 + b c4 8 + b c5 16 + b c6 32 + b c7 64 + b c8 128 + b c9 256 + b c10 512 + b c11 1024 + b c12 2048)%nat.
 
 Fixpoint mismatches {A} (chk : A -> nat) (i : nat) (l : list A) : list (nat * nat) :=
   match l with
